@@ -161,7 +161,7 @@ def deep_agree(f, m, out, where, idxs=None):
         need = (n.bit_length() + 7) // 8
         # every length the VALUE fits in (also shorter than the frame's own packed length, down to 0 bytes for 0)
         for l in sorted({need, need + 1, max(need, nb - 1), nb, nb + 1, nb + 3}):
-            p = f.pack_len(l)
+            p = f.pack_len(l) if (l + w) % 2 else f.pack_len(l=l)        # by position, or by its documented name
             if p != n.to_bytes(l, "big"):
                 out.append(("C05:pack_len", "%s: pack_len(%d)=%r model %r" % (where, l, p, n.to_bytes(l, "big"))))
             if l >= nb and (type(f)(p) if isinstance(f, frame.BackwardFrame) else type(f)(w, p)) != f:
